@@ -326,7 +326,22 @@ pub fn factorial(v: Decimal, q: Q) -> R {
             let dist = f((v - v.round()).abs());
             let exact = Decimal::from_f64_retain(x).map(|b| b == v).unwrap_or(false);
             if !exact && dist < 1e-6 * x.abs().max(1.0) {
-                return RV::Unspec("U3: non-representable argument next to a pole of x!");
+                // the distance d to the pole -m is exact in decimal arithmetic and small, so it converts well; then
+                // x! = Gamma(x + 1) = pi / (sin(pi (x + 1)) Gamma(-x)) with sin(pi (x + 1)) = (-1)^(m-1) sin(pi d),
+                // and Gamma(-x) is well-conditioned (its argument is next to the positive integer m)
+                if dist < 1e-17 * x.abs().max(1.0) {
+                    // pi * x is formed at 28 digits: its rounding (1e-28 |x|) against the distance to the pole
+                    return RV::Unspec("U3: argument within the arithmetic's resolution of a pole of x!");
+                }
+                let pole = v.round();
+                let d = f(v - pole);
+                let m = (-pole).to_i64().unwrap_or(0);
+                if m < 1 || d == 0.0 {
+                    return RV::Unspec("U3: argument next to a pole of x!");
+                }
+                let sign = if (m - 1) % 2 == 0 { 1.0 } else { -1.0 };
+                let s = sign * (std::f64::consts::PI * d).sin();
+                return from_f64(q, std::f64::consts::PI / (s * crate::ev_f64::gamma(-x)));
             }
         }
         from_f64(q, crate::ev_f64::gamma(x + 1.0))
@@ -456,19 +471,16 @@ fn call(fun: Func, args: &[Node], at: Decimal) -> R {
             let v = match s {
                 Some(t) => t / n,
                 None => {
-                    // only the sum overflows: the mean of the scaled terms (each rounded at 28 digits)
-                    let mut m = Some(Decimal::ZERO);
-                    for v in &vs {
-                        m = m.and_then(|t| t.checked_add(*v / n));
-                    }
-                    match m {
+                    // only the sum overflows: the mean of values inside the range is inside the range, so it always has a
+                    // value — through exact rationals, rounded to what a Decimal holds
+                    match mean_exact(&vs) {
                         Some(m) => m,
-                        None => return RV::Unspec("U3: the mean itself does not fit"),
+                        None => return RV::Unspec("U3: mean not computable"),
                     }
                 }
             };
             match q {
-                Q::Exact => RV::Val(v, Q::Tol(1e-27 * f(v).abs().max(1.0) + if s.is_none() { vs.len() as f64 } else { 0.0 })),
+                Q::Exact => RV::Val(v, Q::Tol(1e-27 * f(v).abs().max(1.0))),
                 _ => RV::Val(v, Q::Skip),
             }
         }
@@ -489,12 +501,12 @@ fn call(fun: Func, args: &[Node], at: Decimal) -> R {
                     }
                     None => {
                         // only the sum overflows
-                        match (s[l / 2] / Decimal::TWO).checked_add(s[l / 2 - 1] / Decimal::TWO) {
+                        match mean_exact(&[s[l / 2], s[l / 2 - 1]]) {
                             Some(v) => match q {
-                                Q::Exact => RV::Val(v, Q::Tol(1e-27 * f(v).abs().max(1.0) + 1.0)),
+                                Q::Exact => RV::Val(v, Q::Tol(1e-27 * f(v).abs().max(1.0))),
                                 _ => RV::Val(v, Q::Skip),
                             },
-                            None => RV::Unspec("U3: the mean of the middle values does not fit"),
+                            None => RV::Unspec("U3: mean not computable"),
                         }
                     }
                 }
@@ -502,6 +514,27 @@ fn call(fun: Func, args: &[Node], at: Decimal) -> R {
         }
         _ => RV::Unspec("not decimal"),
     }
+}
+
+/// the mean of decimals as an exact rational, rounded (toward zero in the last place kept) to the most digits a Decimal holds
+fn mean_exact(vs: &[Decimal]) -> Option<Decimal> {
+    use crate::big::{Mag, Rat};
+    use crate::ev_dec_exact::rat_of_decimal;
+    let mut sum = Rat::int(0);
+    for v in vs {
+        sum = sum.add(&rat_of_decimal(*v));
+    }
+    let mean = sum.div(&Rat::int(vs.len() as i128));
+    let max = Mag::from_u128(79228162514264337593543950335u128);
+    for k in (0..=28u32).rev() {
+        let (n, _) = mean.p.mul(&Mag::pow10(k)).divrem(&mean.q);
+        if n.cmp(&max) != std::cmp::Ordering::Greater {
+            let mut d = Decimal::try_from_i128_with_scale(n.to_u128()? as i128, k).ok()?;
+            d.set_sign_negative(mean.neg && !d.is_zero());
+            return Some(d);
+        }
+    }
+    None
 }
 
 /// compare a subject Decimal against the reference under Q (numeric comparison, scale ignored)
